@@ -1,6 +1,6 @@
 (* C07 - Clones are faithful, self-contained and independent of the original. Property theorems only. *)
 From Coq Require Import List.
-From SV Require Import Base.Base IR.State IR.NS IR.Ops Xform.Clone Proofs.CloneSmall Proofs.C01_full Proofs.Inv1a Proofs.Inv2a Proofs.CloneFrame Proofs.CloneStart Proofs.UniqInv.
+From SV Require Import Base.Base IR.State IR.NS IR.Ops Xform.Clone Proofs.CloneSmall Proofs.C01_full Proofs.Inv1a Proofs.Inv2a Proofs.CloneFrame Proofs.CloneStart Proofs.NsInv Proofs.UniqInv.
 Import ListNotations.
 
 (* cloning a wire: one fresh element, no pins listed, nothing else changes *)
@@ -57,14 +57,14 @@ Print Assumptions C07_full.
 (* "the copy is a well-formed structure": in every state reachable by editing calls, a completed
    Definition.clone leaves every container - of the original design and of the copy - listing exactly
    the elements that name it as parent, once, and every definition listing exactly the instances that
-   reference it, once: the copied child instances are registered with the definitions they reference,
+   reference it, once, and every member of a container having the kind its relation asks for: the copied child instances are registered with the definitions they reference,
    and the copy itself is referenced by nothing. (The implementation's Definition.clone is the
    building block of uniquify; the other roots are covered by the frame/closure theorems above and by
    the correspondence runs.) *)
 Theorem C07_definition_clone_well_formed : forall ops d,
   let s := run ops init in
   d < next s -> snd (fst (clone_definition s d)) = None ->
-  Inv1a (fst (fst (clone_definition s d))) /\ Inv2a (fst (fst (clone_definition s d))).
+  Inv1a (fst (fst (clone_definition s d))) /\ Inv2a (fst (fst (clone_definition s d))) /\ InvT (fst (fst (clone_definition s d))).
 Proof. exact clone_definition_reachable. Qed.
 Print Assumptions C07_definition_clone_well_formed.
 
